@@ -260,6 +260,40 @@ def check_commit_always_inserts(cfg, w, rep, tag):
             rep.ob(cfg, "%s/commit-inserts" % tag, key, "every keyed success return of `%s` passes the index insertion" % short(lf.path))
 
 
+def check_no_failure_after_insert(cfg, w, rep, tag):
+    """A commit that fails has indexed nothing: in every COMMIT, the index insertion is the last step that can fail — after the
+    insertion call no failure return is reachable except the one that hands back the insertion's own error (a check placed
+    *after* the append would reject the commit and still leave its record as the key's most recent one)."""
+    prog = w.prog
+    R = w.roles
+    for p in R.commits:
+        lf = prog.fns[p]
+        body = lf.body
+        cf = prog.cfg(body)
+        key = fn_key(lf)
+        ins = [(blk, t) for b, blk, t, g in prog.local_calls(lf) if b is body and g.path in R.index_inserts]
+        for blk, t in ins:
+            after = cf.reachable(blk.i)
+            bad = None
+            for rd in ret_defs(prog, body):
+                if rd.cls != "failure" or rd.blk not in after or rd.blk == blk.i:
+                    continue
+                pay = prog.resolve_lifted(body, 0, (("v", "Err"), ("f", "0")), OKFLOW, at=rd.blk)
+                if not pay:
+                    pay = prog.resolve_lifted(body, 0, (("v", "Ready"), ("f", "0"), ("v", "Err"), ("f", "0")), OKFLOW, at=rd.blk)
+                own = bool(pay) and all(x.kind == "call" and x.term is t for x in pay)
+                if not own:
+                    bad = rd
+                    break
+            if bad is not None:
+                rep.violation("%s-fail-after-insert:%s" % (tag, key),
+                              "commit `%s` can fail (%s at %s) after it has appended its index record: the rejected write would be the key's "
+                              "most recent record" % (short(lf.path), bad.detail, blk_loc(body, bad.blk)),
+                              loc=blk_loc(body, bad.blk), config=cfg, rule="%s/insert-is-last" % tag)
+            else:
+                rep.ob(cfg, "%s/insert-is-last" % tag, "%s@%d" % (key, blk.i), "after the index insertion `%s` fails only with the insertion's own error" % short(lf.path))
+
+
 REMOVAL_ENTRY = re.compile(r"^(rm::(remove_hash|remove_hash_sync|clear|clear_sync)|index::RemoveOpts::remove(_sync)?)$")
 
 
